@@ -434,6 +434,102 @@ theorem endBlock_outcome {s : State} (hi : Inv s) (hp : PrevInv s) (h t : Int) (
   · intro a; rw [f3.1, htop]; exact out.prev a
   · intro a; rw [f3.2.1, htop, out.tm a]; exact out.prev a
 
+theorem endBlock_eq (s : State) (h t : Int) :
+    endBlock s h t = (unstakeMature (updateTm (incrementJailed s h) h t).1 t, (updateTm (incrementJailed s h) h t).2) := by
+  unfold endBlock
+  simp only
+
+/-- the consensus set after an end-block is the old one with the reported updates applied -/
+theorem endBlock_tmSet (s : State) (h t : Int) :
+    (endBlock s h t).1.tmSet = applyUpdates s.tmSet (endBlock s h t).2 ∧
+    (endBlock s h t).2 = (updateTm (incrementJailed s h) h t).2 := by
+  rw [endBlock_eq]
+  simp only
+  have f1 := frame_incrementJailed s h
+  generalize incrementJailed s h = s0 at f1 ⊢
+  have key : (updateTm s0 h t).1.tmSet = applyUpdates s0.tmSet (updateTm s0 h t).2 := by
+    unfold updateTm
+    simp only
+    have f2 : Frame s0 (if h % s0.params.blocksPerSession = 0 then releaseWaiting s0 t else s0) := by
+      split
+      · exact frame_releaseWaiting s0 t
+      · exact Frame.refl s0
+    generalize (if h % s0.params.blocksPerSession = 0 then releaseWaiting s0 t else s0) = s1 at f2 ⊢
+    have fr := tmFold_frame s1.params.maxValidators (sortStaked s1.stakedIdx) { st := s1, remaining := s1.prevPower }
+    generalize (sortStaked s1.stakedIdx).foldl (tmStep s1.params.maxValidators) { st := s1, remaining := s1.prevPower } = acc at fr ⊢
+    have htm : ∀ (l : List Addr) (x : State × List Update), (l.foldl (leaverStep h) x).1.tmSet = x.1.tmSet := by
+      intro l
+      induction l with
+      | nil => intro x; rfl
+      | cons a t ih =>
+        intro x
+        simp only [List.foldl_cons]
+        rw [ih]
+        unfold leaverStep
+        cases aget x.1.vals a with
+        | none => rfl
+        | some v => simp only; split <;> rfl
+    have htm' := htm (sortAddrs (acc.remaining.map (·.1))) (acc.st, acc.updates)
+    generalize (sortAddrs (acc.remaining.map (·.1))).foldl (leaverStep h) (acc.st, acc.updates) = r at htm' ⊢
+    obtain ⟨s2, ups⟩ := r
+    simp only at htm' ⊢
+    have e4 : s2.tmSet = s0.tmSet := by rw [htm', fr.2.2.2.2.2.2.2.2.2.2.2.1, f2.2.1]
+    split
+    · show applyUpdates s2.tmSet ups = applyUpdates s0.tmSet ups
+      rw [e4]
+    · show applyUpdates s2.tmSet ups = applyUpdates s0.tmSet ups
+      rw [e4]
+  constructor
+  · show (unstakeMature (updateTm s0 h t).1 t).tmSet = applyUpdates s.tmSet (updateTm s0 h t).2
+    rw [(frame_unstakeMature _ t).2.1, key, f1.2.1]
+  · trivial
+
+/-- what the reported updates of an end-block are (validator split active) -/
+theorem endBlock_updates {s : State} (hi : Inv s) (hp : PrevInv s) (h t : Int) (hh : splitHeight ≤ h) :
+    ∀ u ∈ (endBlock s h t).2,
+      (u.power ≠ 0 ∧ aget (topN (endBlock s h t).1) u.addr = some u.power) ∨
+      (u.power = 0 ∧ aget s.prevPower u.addr ≠ none ∧ aget (topN (endBlock s h t).1) u.addr = none) := by
+  have i1 := inv_incrementJailed hi h
+  have p1 : PrevInv (incrementJailed s h) := hp.of_frame (frame_incrementJailed s h) (stable_incrementJailed hi h).keeps
+  have out := updateTm_outcome i1 p1 h t hh
+  have i2 := inv_updateTm i1 h t
+  have ir : Inv (if h % (incrementJailed s h).params.blocksPerSession = 0 then releaseWaiting (incrementJailed s h) t else incrementJailed s h) := by
+    split
+    · exact inv_releaseWaiting i1 t
+    · exact i1
+  have fr1 : Frame s (if h % (incrementJailed s h).params.blocksPerSession = 0 then releaseWaiting (incrementJailed s h) t else incrementJailed s h) := by
+    split
+    · exact (frame_incrementJailed s h).trans (frame_releaseWaiting _ t)
+    · exact frame_incrementJailed s h
+  generalize (if h % (incrementJailed s h).params.blocksPerSession = 0 then releaseWaiting (incrementJailed s h) t else incrementJailed s h) = s1 at out ir fr1
+  rw [(endBlock_tmSet s h t).2]
+  have hfin : (endBlock s h t).1 = unstakeMature (updateTm (incrementJailed s h) h t).1 t := by
+    unfold endBlock; rfl
+  rw [hfin]
+  generalize updateTm (incrementJailed s h) h t = r at out i2 ⊢
+  obtain ⟨s2, ups⟩ := r
+  simp only at out i2 ⊢
+  have i3 := inv_unstakeMature i2 t
+  have f3 := frame_unstakeMature s2 t
+  have hc12 : sortStaked (candidates s2) = sortStaked (candidates s1) :=
+    sorted_candidates_congr i2 ir (fun a v _ => by rw [out.vals])
+  have hc23 : sortStaked (candidates (unstakeMature s2 t)) = sortStaked (candidates s2) := by
+    apply sorted_candidates_congr i3 i2
+    intro a v hs
+    constructor
+    · intro hv
+      unfold unstakeMature at hv
+      exact (inv_matureSlices _ i2 i2 (fun _ _ h => h)
+        (fun e he => getQ_of_mem i2.qNodup (List.mem_filter.mp he).1)).2 a v hv
+    · intro hv
+      exact unstakeMature_keeps i2 t hv (Or.inl (by rw [hs]; simp))
+  have htop : topN (unstakeMature s2 t) = topN s1 := by
+    unfold topN
+    rw [hc23, hc12, f3.2.2, out.params]
+  intro u hu
+  rw [htop, ← fr1.1]
+  exact out.updates u hu
+
 /-- pointwise equal lookups with distinct keys on both sides are equal maps for the executable check -/
 theorem sameMap_of_pointwise {x y : List (Addr × Int)} (hx : (x.map (·.1)).Nodup) (hy : (y.map (·.1)).Nodup)
     (h : ∀ a, aget x a = aget y a) : sameMap x y = true := by
@@ -448,5 +544,42 @@ theorem sameMap_of_pointwise {x y : List (Addr × Int)} (hx : (x.map (·.1)).Nod
     have := aget_of_mem hy (show (p.1, p.2) ∈ y from hp)
     rw [← h] at this
     simp [this]
+
+/-- the joint invariant over histories -/
+structure Inv2 (s : State) : Prop where
+  inv : Inv s
+  prev : PrevInv s
+
+/-- end-blocks of the history run under the modern rule set (validator split active) -/
+def Op.modern : Op → Bool
+  | .endBlock h _ => decide (splitHeight ≤ h)
+  | _ => true
+
+theorem inv2_step {s : State} (h2 : Inv2 s) (op : Op) (hop : op.isPoolSend = false) (hm : op.modern = true) :
+    Inv2 (step s op) := by
+  refine ⟨inv_step h2.inv op hop, ?_⟩
+  cases op with
+  | endBlock h t =>
+    exact (endBlock_outcome h2.inv h2.prev h t (by simpa [Op.modern] using hm)).1
+  | setParams p =>
+    exact ⟨h2.prev.prevNodup, h2.prev.tmNodup, h2.prev.sync, h2.prev.hasRec⟩
+  | stake h m signer => exact h2.prev.of_frame (frame_step s _ (by intros; simp) (by intros; simp)) (stable_step h2.inv _ (by intros; simp)).keeps
+  | beginUnstake a signer => exact h2.prev.of_frame (frame_step s _ (by intros; simp) (by intros; simp)) (stable_step h2.inv _ (by intros; simp)).keeps
+  | unjail h t now a signer => exact h2.prev.of_frame (frame_step s _ (by intros; simp) (by intros; simp)) (stable_step h2.inv _ (by intros; simp)).keeps
+  | burn a amount => exact h2.prev.of_frame (frame_step s _ (by intros; simp) (by intros; simp)) (stable_step h2.inv _ (by intros; simp)).keeps
+  | beginBlock h t votes evs => exact h2.prev.of_frame (frame_step s _ (by intros; simp) (by intros; simp)) (stable_step h2.inv _ (by intros; simp)).keeps
+  | credit a d => exact h2.prev.of_frame (frame_step s _ (by intros; simp) (by intros; simp)) (stable_step h2.inv _ (by intros; simp)).keeps
+  | reward to amount => exact h2.prev.of_frame (frame_step s _ (by intros; simp) (by intros; simp)) (stable_step h2.inv _ (by intros; simp)).keeps
+  | sendToPool sender amount => cases hop
+
+theorem inv2_run {s : State} (h2 : Inv2 s) (ops : List Op) (hops : ∀ op ∈ ops, op.isPoolSend = false ∧ op.modern = true) :
+    Inv2 (run s ops) := by
+  unfold run
+  induction ops generalizing s with
+  | nil => exact h2
+  | cons op t ih =>
+    simp only [List.foldl_cons]
+    exact ih (inv2_step h2 op (hops op List.mem_cons_self).1 (hops op List.mem_cons_self).2)
+      (fun o ho => hops o (List.mem_cons_of_mem _ ho))
 
 end Nodes
